@@ -1370,6 +1370,12 @@ where
                     // Sync
                     // Frontend (client) is asking for the query result now.
                     'S' => {
+                        // During COPY IN the server ignores Sync and sends nothing back:
+                        // waiting for a reply would pin the server forever.
+                        if server.in_copy_mode() {
+                            continue;
+                        }
+
                         debug!("Sending query to server");
 
                         match plugin_output {
